@@ -121,12 +121,11 @@ func concPrograms() []vrt.Program {
 					if !ranA || !ranB {
 						return "", &core.Violation{Signature: "HARNESS-FAULT", What: fmt.Sprint("a thread did not finish: ", errA, errB)}
 					}
-					if errA != nil && !errors.Is(errA, group.ErrTagMismatch) {
-						return "", &core.Violation{Signature: "HARNESS-FAULT", What: "UpdateDescription: " + errA.Error()}
-					}
-					if errB != nil && !errors.Is(errB, group.ErrTagMismatch) {
-						return "", &core.Violation{Signature: "HARNESS-FAULT", What: other.name + ": " + errB.Error()}
-					}
+					// an update that returned an error was not acknowledged and
+					// promises nothing (a tag mismatch is the expected refusal;
+					// whether other errors are justified is the sequential
+					// sub-checks' business)
+					_ = errors.Is
 					data, err := os.ReadFile(file)
 					if err != nil {
 						return "", &core.Violation{Signature: "C17/conc/definition-file-missing", What: err.Error()}
@@ -143,8 +142,10 @@ func concPrograms() []vrt.Program {
 						return "", &core.Violation{Signature: "C17/conc/definition-update-lost/" + other.name,
 							What: fmt.Sprintf("the update of the definition was acknowledged but is not in the file after a concurrent %s: %s", other.name, data)}
 					}
-					if _, ok := d["users"].(map[string]any)["alice"]; !ok {
-						return "", &core.Violation{Signature: "C17/conc/unaddressed-user-lost", What: string(data)}
+					um, _ := d["users"].(map[string]any)
+					if _, ok := um["alice"]; !ok {
+						return "", &core.Violation{Signature: "C17/conc/unaddressed-user-lost",
+							What: "user alice, whom neither update addresses, is no longer in the stored definition: " + string(data)}
 					}
 					return fmt.Sprint(errA == nil, errB == nil), nil
 				}
